@@ -8,6 +8,7 @@
     segment is retransmitted without waiting for the RTO"   -> C05_fast_retransmit_on_third_dupack (partial:
                                                                when no earlier recovery covers the segment),
                                                                C05_fast_retransmit_covered_refuted,
+                                                               C05_fast_retransmit_after_recovery_refuted,
                                                                C05_partial_ack_retransmits, C05_recovery_ends
    "otherwise it is retransmitted by timeout ... exactly
     one segment sent per timeout while the peer stays
@@ -60,6 +61,22 @@ Theorem C05_fast_retransmit_covered_refuted :
      frActive (SN (fst (step t (ESeg sg 1000000000)))) = false.
 Proof. exact fast_retransmit_covered_refuted. Qed.
 Print Assumptions C05_fast_retransmit_covered_refuted.
+
+(* nor after a finished FAST recovery: leaveFastRecovery advances fr.last to sndNxt-1, so three
+   duplicate ACKs for a segment that was in flight when the recovery ended trigger nothing, although
+   sndUna is beyond the recovery point recorded at its entry (RFC 6582 would retransmit).
+   Candidate finding; the same pattern is seen on traces of the real code (Corr.C05 tag bit 32). *)
+Theorem C05_fast_retransmit_after_recovery_refuted :
+  exists t sg recover,
+     recover = frLast (SN exB) /\ frActive (SN exB) = true /\ frActive (SN t) = false /\
+     lessThan recover (sndUna (SN t)) = true /\ gRto (snd (grun ex0 g0 [wr; ack 1010; ack 1010; ack 1010; ack 1010; ack 1010; ack 1010; ack 1010; ack 1010; ack 1120; ack 1120; ack 1120])) = 0 /\
+     processed t sg = true /\ dupAck (SN t) = 2 /\ outstanding (SN t) = 7 /\
+     sndUna (SN t) <> sndNxt (SN t) /\ s_ack sg = sndUna (SN t) /\ seglen sg = 0 /\
+     wndOf t sg = sndWnd (SN t) /\
+     dcount (out (fst (step t (ESeg sg 1000000000)))) = 0 /\
+     frActive (SN (fst (step t (ESeg sg 1000000000)))) = false.
+Proof. exact fast_retransmit_after_recovery_refuted. Qed.
+Print Assumptions C05_fast_retransmit_after_recovery_refuted.
 
 (* partial ACK during recovery: the new head of the write list (after removing the newly
    acknowledged bytes, [trimmed]) is retransmitted in that step; recovery continues *)
